@@ -120,6 +120,8 @@ def o_percentile(case):
         kk = int(round(area / cell)) - 1
         if not (0 <= kk < len(vals)):
             return fail("C20/percentile-count", "cell count of the contour out of range", None, "0..n-1", kk, 0)
+        if not abs(area - (kk + 1) * cell) <= 1e-12 * (kk + 1) * cell:
+            return fail("C20/percentile-area", "the returned area is not (number of selected cells) x dx x dy (dx = %r, dy = %r)" % (dx, dy), None, float((kk + 1) * cell), float(area), 1e-12)
         if not cs[kk] >= p * total * (1 - 1e-9):
             return fail("C20/percentile-reach", "the returned cells do not reach p of the total", None, float(p * total), float(cs[kk]), 1e-9)
         if kk > 0 and not cs[kk - 1] < p * total * (1 + 1e-9):
